@@ -319,7 +319,20 @@ func evalC15Shutdown(c c19Shutdown) *Failure {
 	return failf("c15|"+strings.TrimPrefix(f.Key, "c19|"), "%s", f.Detail)
 }
 
+// evalC15Unread: Stop returns and leaves the promised state also when a client has not read its reply (see c19Unread).
+func evalC15Unread(c c19Unread) *Failure {
+	f := evalC19Unread(c)
+	if f == nil || strings.HasPrefix(f.Key, "harness|") {
+		return f
+	}
+	if strings.HasSuffix(f.Key, "-hangs") {
+		return failf("c15|stop-hangs", "%s", f.Detail)
+	}
+	return failf("c15|"+strings.TrimPrefix(f.Key, "c19|"), "%s", f.Detail)
+}
+
 func init() {
+	register("c15.unread", evalC15Unread)
 	register("c15.config", evalC15Cfg)
 	register("c15.shutdown", evalC15Shutdown)
 }
